@@ -385,7 +385,32 @@ def run(ctx):
         sa = [c for c in s.calls() if c.path.endswith("::split_at")]
         ch = [c for c in s.calls() if c.path.endswith("Iterator::chain")]
         idx = [c for c in s.calls() if c.is_("core::ops::index::Index::index")]
-        if sa and mentions_field(ebs.operand(sa[0].args[1]), W + "::Stack", "index") and ch and idx and \
+        # the loop spelling: `for s in right { … }` then `for s in left { … }`, each stealing and returning on success
+        steal_calls = [c for c in s.calls() if c.path.endswith("Stealer::steal_batch_and_pop") or c.path.endswith("Stealer::steal")]
+        if sa and mentions_field(ebs.operand(sa[0].args[1]), W + "::Stack", "index") and not ch and idx and len(steal_calls) == 2 and \
+                any(x.k == "agg" and x[1].endswith("RangeFrom") and x[3] and x[3][0].k == "const" and x[3][0][1] == 1
+                    for x in walk(ebs.operand(idx[0].args[1]))):
+            recv = [ebs.operand(c.args[0]) for c in steal_calls]
+            from_right = [any(is_call(x, "core::ops::index::Index::index") for x in walk(e)) for e in recv]
+            from_left = [any(x.k == "field" and x[2] == "(tuple)" and x[3] == "0" for x in walk(e)) and not fr for e, fr in zip(recv, from_right)]
+            in_loop = all(c.bb in C.reach_after(s, c.bb) for c in steal_calls)
+            # right first: the loop over left is reachable from the loop over right, not the other way round
+            ri, li = (0, 1) if from_right[0] else (1, 0)
+            ordered = from_right[ri] and from_left[li] and steal_calls[li].bb in C.reach_after(s, steal_calls[ri].bb) and \
+                steal_calls[ri].bb not in C.reach_after(s, steal_calls[li].bb)
+            plain = not any(c.path.startswith("core::iter::traits::iterator::Iterator::") and
+                            c.path.rsplit("::", 1)[1] in ("take", "skip", "step_by", "take_while", "skip_while", "filter", "nth")
+                            for c in s.calls())
+            if in_loop and ordered:
+                r.ok("steal|order", "a loop over right[1..], then a loop over left: every other worker, never self", fn=s)
+            else:
+                r.bad("steal|order", "steal does not visit right[1..] then left", fn=s, construct="steal")
+            if plain:
+                r.ok("steal|all", "both loops run over the whole slice (no take/skip/step_by/… on the way)", fn=s)
+            else:
+                r.bad("steal|all", "steal passes a sweep over the other deques through an adapter that can leave some of them unvisited",
+                      fn=s, construct="steal")
+        elif sa and mentions_field(ebs.operand(sa[0].args[1]), W + "::Stack", "index") and ch and idx and \
                 any(x.k == "agg" and x[1].endswith("RangeFrom") and x[3] and x[3][0].k == "const" and x[3][0][1] == 1
                     for x in walk(ebs.operand(idx[0].args[1]))):
             a0, a1 = ebs.operand(ch[0].args[0]), ebs.operand(ch[0].args[1])
